@@ -163,7 +163,7 @@ def _ctor_order():
 
 def jobs(tier, seed, prop):
     cf = ContractFile("contracts/dyncon.c")
-    nl = 2 if tier == "quick" else 4
+    nl = 2 if tier == "quick" else 3
     pre = '#include "tsg_shim.h"\nint tsg_exc;\n#define TSG_NL %d\n#line 1 "/verif/contracts/dyncon.c"\n' % nl + cf.text(("text",))
     out = []
     if prop == "C06":
